@@ -3,7 +3,9 @@
 // log in Post), (2) consumer-side conservation/order oracle against the deterministic producer
 // stream with put-back, emptiness and depth bounds, deadlock watchdog, (3) linearizability of short
 // concurrent histories (porcupine + an independent merge search) against a sequential deque,
-// (4) all sequential histories up to a bound against a reference list.
+// (4) all sequential histories up to a bound against a reference list, (5) the queue as the channel
+// uses it: a real channel.Channel over a scripted transport (failing reads, pending reads, re-used
+// read buffer), consumer calling Channel.Read/ReadAll, stream oracle.
 package c20
 
 import (
@@ -47,6 +49,11 @@ type Desc struct {
 	Histories int `json:"histories,omitempty"`
 	MaxOps    int `json:"max_ops,omitempty"`
 
+	// chan: Histories sessions of a real channel.Channel over a scripted transport of at most MaxOps
+	// transport reads; session i is a pure function of (Seed, i, ErrPm, ReusePm)
+	ErrPm   int `json:"err_pm,omitempty"`   // per-mille: a run of failing transport reads starts at a step
+	ReusePm int `json:"reuse_pm,omitempty"` // per-mille of sessions whose transport re-uses one read buffer
+
 	// seq: histories Lo..Hi-1 of length Len (base-6 numbering over Enqueue Dequeue DequeueAll Requeue GetDepth RequeueOldestHeld)
 	Len int   `json:"len,omitempty"`
 	Lo  int64 `json:"lo,omitempty"`
@@ -64,7 +71,9 @@ func gen(tier string, seed int64) []mon.Case {
 		cs = append(cs, mon.MkCase(fmt.Sprintf("c20/%s/%04d", prefix, len(cs)), d))
 	}
 	nStress, chunks, nLin, perLin, maxLen := 32, 30000, 80, 100, 8
+	nChan, perChan := 16, 25
 	if tier == "thorough" {
+		nChan, perChan = 80, 100
 		nStress, chunks, nLin, perLin, maxLen = 160, 120000, 400, 250, 9
 	}
 	// every block below is a multiple of nWorkers cases, so that each kind meets every GOMAXPROCS
@@ -93,6 +102,9 @@ func gen(tier string, seed int64) []mon.Case {
 	for i := 0; i < nLin; i++ {
 		add("lin", Desc{Kind: "lin", Seed: r.Int63n(1 << 40), Histories: perLin, MaxOps: 40, PYieldPm: pick(r, 0, 100, 400)})
 	}
+	for i := 0; i < nChan; i++ {
+		add("chan", Desc{Kind: "chan", Seed: r.Int63n(1 << 40), Histories: perChan, MaxOps: pick(r, 20, 40, 60), ErrPm: pick(r, 0, 60, 150, 150), ReusePm: 500})
+	}
 	// sequential: lengths 1..maxLen-2 in one case each ... the two longest lengths are split
 	for L := 1; L <= maxLen; L++ {
 		total := powOps(L)
@@ -117,6 +129,8 @@ func run(c mon.Case) mon.Result {
 		return runLin(d)
 	case "seq":
 		return runSeq(d)
+	case "chan":
+		return runChan(d)
 	case "race-report", "race-log":
 		// synthetic cases added by Post; replaying one means: run a stress workload again and let
 		// Post read the race log of the replay
@@ -310,13 +324,14 @@ func init() {
 		Rule: "One case is a batch: a stress run (one producer, one consumer, N chunks with unique ids; 'pure' runs add no harness synchronisation between the two goroutines, 'bounds' runs add " +
 			"producer counters for the emptiness/depth-bounds oracle), a batch of short concurrent histories judged for linearizability, or a range of the exhaustive sequential enumeration. " +
 			"Non-trivial = stress run with >=1 put-back and >=1 empty dequeue; lin batch with >=1 history that has a put-back, an empty dequeue and overlapping operations of both clients; any " +
-			"sequential range with >=1 admissible history. Operation/history counts are in 'observed' (incl. *_two_outstanding_putbacks: histories/operations with >=2 put-backs in the queue at once, " +
+			"sequential range with >=1 admissible history; channel batch with >=1 session in which a call returned the transport error while chunks were queued, or (buffer re-using transport) chunks were obtained from a backlog. Operation/history counts are in 'observed' (incl. *_two_outstanding_putbacks: histories/operations with >=2 put-backs in the queue at once, " +
 			"then taken by DequeueAll / Dequeue). Sequential enumeration: 6 operations (Enqueue Dequeue DequeueAll GetDepth Requeue-newest-held Requeue-oldest-held). Distinct = distinct descriptor hash.",
 		Assumptions: []string{
 			"exactly one producer goroutine (Enqueue, GetDepth) and one consumer goroutine (Dequeue, DequeueAll, Requeue, GetDepth), as the channel uses the queue",
 			"Requeue is only called by the consumer with a chunk it took before (result of a Dequeue/DequeueAll: all of it, or the non-empty tail of the only chunk it holds) and has not put back since; it may hold several taken chunks (stress/lin: up to 3) and put them back one after the other, so several put-backs can be outstanding at once; sequential histories violating this are skipped",
 			"order of several outstanding put-backs: from the statement's words 'putting a chunk back at the front' and 'put-back chunks re-read first' every put-back becomes the first element, i.e. after Requeue(a), Requeue(b) the queue reads b, a, then the rest - through Dequeue and through DequeueAll alike (this is also what the unchanged library's prepend does); stress runs put back most-recently-taken first, which restores the producer's stream order; lin and sequential histories also put back the oldest held chunk (reference: the deque)",
-			"chunks are non-empty and never modified after Enqueue",
+			"queue-level families: chunks are non-empty and never modified after Enqueue",
+			"channel-level family (real channel.Channel, read loop as producer, Channel.Read/ReadAll as consumer): the scripted transport fails only with one non-EOF error value and never ends; a failing transport read takes nothing out of the queue and loses nothing (taken from the unchanged library: Read returns the error from Errs / the persisting-error flag and leaves the queue intact, ReadAll only the one from Errs), so every byte delivered comes out exactly once, in order, with CR and the escape sequences of a fixed family removed; a transport may re-use one read buffer across reads (transport.Implementation returns []byte and says nothing about ownership; the unchanged channel copies every chunk, so such a transport works); slices returned by Read/ReadAll belong to the caller and are re-compared at the end of the session",
 			"race detector: a report is attributed to the property when it occurs in a worker of this check; one deliberate canary race in harness code per worker proves the log pipeline and is excluded",
 			"linearizability: checker timeout (10 s per history) or disagreement between porcupine and the independent merge search is inconclusive, never a violation",
 			"deadlock = every goroutine using the queue is parked inside a Queue method for >= 5 s without progress (logical criterion; mere lack of progress is inconclusive)",
